@@ -16,7 +16,7 @@ RULE = (
     "assign'. non-trivial = history with a targeted update that left another node outdated and a "
     "restore of a state saved under a different dirty set; distinct by (program, history) hash"
 )
-REQUIRED = ["I1_uptodate_equals_fromscratch", "I1_input_holds_assigned_value",
+REQUIRED = ["G1_uptodate_equals_fromscratch", "G3_targeted_update_closure_uptodate", "I1_uptodate_equals_fromscratch", "I1_input_holds_assigned_value",
             "I2_full_update_leaves_nothing_outdated", "I3_targeted_update_closure_uptodate",
             "I4_evaluation_counts", "I5_state_roundtrip"]
 ANCHORS = ["model/model.py:Model.update", "model/nodes.py:Node.flag_outdated", "model/nodes.py:Calc.update",
@@ -37,9 +37,70 @@ def make_program(seed, idx, big=False):
     raise RuntimeError("no sane program")
 
 
+def run_realistic(case, res):
+    """Generated statistical models (transformed variables, degenerate MVN priors, weak variables with
+    distributions, user-supplied totals) and DistRegBuilder models under the graph-evaluator monitor."""
+    import jax.numpy as jnp
+    import numpy as np
+
+    from vlib import statmodels as sm
+    from vlib.graphshadow import GraphShadow
+
+    rng = rng_for(case["seed"], "c01-real", case["idx"])
+    desc = sm.gen_model(rng)
+    vals = sm.initial_values(desc, rng)
+    b = sm.build(desc, initial=vals)
+    model = b.model
+    gs_ = GraphShadow(model, res, tag="statmodel")
+    gs_.check("build")
+    gs_.all_uptodate("build")
+    strong = [it for it in desc["items"] if it["t"] == "var"]
+    names = list(model.nodes)
+    for step in range(case["n_ops"]):
+        r = rng.random()
+        if r < 0.45:
+            it = strong[int(rng.integers(len(strong)))]
+            v = sm.draw_value(rng, it["fam"], tuple(it["shape"]))
+            if it["name"] in b.transformed:
+                tv = b.transformed[it["name"]]
+                val = jnp.asarray(sm.to_unconstrained(sm.bij_kind(it), v), b.ft)
+                gs_.assign(tv.value_node.name, val, via_var=tv.name if rng.random() < 0.5 else None)
+            else:
+                var = b.objs[it["name"]]
+                val = jnp.asarray(v, b.ft)
+                gs_.assign(var.value_node.name, val, via_var=var.name if rng.random() < 0.5 else None)
+        elif r < 0.55:
+            gs_.set_auto(bool(rng.random() < 0.5))
+        elif r < 0.65:
+            gs_.update()
+        elif r < 0.85:
+            k = int(rng.integers(1, 3))
+            gs_.update([str(x) for x in rng.choice(names, size=k, replace=False)])
+        elif r < 0.92:
+            gs_.save(int(rng.integers(3)))
+        else:
+            gs_.restore(int(rng.integers(3)))
+        res.ev("ops")
+        if len(res.violations) >= 2:
+            break
+    res.nontriv(("real", case["idx"]))
+    res.sample = {"kind": "realistic", "families": [(it["name"], it.get("fam"), it.get("transform", False)) for it in desc["items"] if "fam" in it],
+                  "ops": gs_.hist[:10]}
+    res.ev("realistic_models")
+
+
 def run_case(case):
     res = CaseResult(case)
     res.evals = 1
+    if case.get("kind") == "realistic":
+        try:
+            run_realistic(case, res)
+        except Exception as exc:  # noqa: BLE001
+            mech, text = exc_mech(exc)
+            if mech is None:
+                raise
+            res.violation(mech, f"operation on a realistic model raised\n{text}", case)
+        return res
     desc, rng = make_program(case["seed"], case["idx"], case.get("big", False))
     prog = Program(desc)
     try:
@@ -77,5 +138,7 @@ def run_case(case):
 
 def gen_cases(tier, seed):
     if tier == "quick":
-        return [{"idx": i, "seed": seed, "n_ops": 30, "cost": 1} for i in range(400)]
-    return [{"idx": i, "seed": seed, "n_ops": 60, "big": i % 3 == 0, "cost": 2} for i in range(6000)]
+        return ([{"idx": i, "seed": seed, "n_ops": 30, "cost": 1} for i in range(400)]
+                + [{"kind": "realistic", "idx": i, "seed": seed, "n_ops": 25, "cost": 3} for i in range(60)])
+    return ([{"idx": i, "seed": seed, "n_ops": 60, "big": i % 3 == 0, "cost": 2} for i in range(6000)]
+            + [{"kind": "realistic", "idx": i, "seed": seed, "n_ops": 40, "cost": 4} for i in range(800)])
